@@ -912,7 +912,7 @@ func randomOp(r *rand.Rand, pos int, kts []string) ROp {
 
 	o := ROp{Type: ty, Wf: "ok", Reveal: "ok", Sig: "ok", Dhash: true, Dv: "ok", Sfx: true, Nuv: "norm"}
 
-	wfCommon := []string{"badjson", "nosuffix", "nosigneddata", "reveal_mh", "badjws", "extrahdr", "extrahdr_b64true", "extrahdr_b64false", "extrahdr_crit", "algnone", "algdisallowed", "noalg", "nokey", "badkey", "crv", "nonce", "payloadjson", "rsakey"}
+	wfCommon := []string{"badjson", "nosuffix", "nosigneddata", "noreveal", "reveal_mh", "badjws", "extrahdr", "extrahdr_b64true", "extrahdr_b64false", "extrahdr_crit", "algnone", "algdisallowed", "noalg", "nokey", "badkey", "crv", "nonce", "payloadjson", "rsakey"}
 
 	switch ty {
 	case "create", "bogus":
